@@ -191,6 +191,66 @@ func fsOptCase(bi, oi, mi, mj, ni int) []bqlm.Clause {
 	return []bqlm.Clause{base, bqlm.WithModifier(bqlm.WithModifier(o, ms[mi], names[ni]), ms[mj], "?n1")}
 }
 
+// fsOpt3Case: THREE aliases on the fully specified OPTIONAL clause: two named like two different bindings of the base
+// (two join keys: a match must agree on both) and one new.
+func fsOpt3Case(bi, oi, mi, mj, ni, nj int) []bqlm.Clause {
+	ns := bqlm.Namings([]bqlm.Clause{reprBases()[bi]})
+	base := ns[len(ns)-1][0]
+	names := base.Bindings()
+	o := fsOptClauses()[oi]
+	ms := bqlm.ModifiersFor(o)
+	mk := 0
+	for mk == mi || mk == mj {
+		mk++
+	}
+	return []bqlm.Clause{base, bqlm.WithModifier(bqlm.WithModifier(bqlm.WithModifier(o, ms[mi], names[ni]), ms[mj], names[nj]), ms[mk], "?n1")}
+}
+
+func runFullySpecified3(r *common.Run, st *stats) {
+	gs := graphs()
+	stores := make([]storage.Store, len(gs))
+	for i, g := range gs {
+		stores[i] = bqlm.NewStore(g)
+	}
+	opts := fsOptClauses()
+	var shapes int64
+	common.ParallelFor(len(opts), func(oi int) {
+		for bi, b := range reprBases() {
+			ns := bqlm.Namings([]bqlm.Clause{b})
+			names := ns[len(ns)-1][0].Bindings()
+			ms := bqlm.ModifiersFor(opts[oi])
+			if len(ms) < 3 || len(names) < 2 {
+				continue
+			}
+			for mi := range ms {
+				for mj := mi + 1; mj < len(ms); mj++ {
+					if ms[mi].Pos == ms[mj].Pos && ms[mi].Kind == ms[mj].Kind {
+						continue
+					}
+					for ni := range names {
+						for nj := range names {
+							if ni == nj {
+								continue
+							}
+							cs := fsOpt3Case(bi, oi, mi, mj, ni, nj)
+							q := &bqlm.Query{From: []string{"?g"}, Where: cs, Proj: bqlm.SelectAll(cs)}
+							atomic.AddInt64(&shapes, 1)
+							for gi := range gs {
+								if r.OutOfTime() {
+									return
+								}
+								v := check(q, stores[gi], gs[gi])
+								report(r, st, "fsopt3", fmt.Sprintf("fsopt3:%d:%d:%d:%d:%d:%d:%d", bi, oi, mi, mj, ni, nj, gi), q, gs[gi], v)
+							}
+						}
+					}
+				}
+			}
+		}
+	})
+	r.Set("fully_specified_optional_shapes_two_join_keys", int(shapes))
+}
+
 func runFullySpecified(r *common.Run, st *stats) {
 	gs := graphs()
 	stores := make([]storage.Store, len(gs))
@@ -311,8 +371,8 @@ func replay(raw json.RawMessage) (bool, string) {
 	var k kase
 	json.Unmarshal(raw, &k)
 	parts := strings.Split(k.Gen, ":")
-	var n [6]int
-	for i := 1; i < len(parts) && i <= 6; i++ {
+	var n [7]int
+	for i := 1; i < len(parts) && i <= 7; i++ {
 		fmt.Sscan(parts[i], &n[i-1])
 	}
 	base := bqlm.BaseClauses()
@@ -340,6 +400,9 @@ func replay(raw json.RawMessage) (bool, string) {
 	case "fsopt":
 		cs = fsOptCase(n[0], n[1], n[2], n[3], n[4])
 		gi = n[5]
+	case "fsopt3":
+		cs = fsOpt3Case(n[0], n[1], n[2], n[3], n[4], n[5])
+		gi = n[6]
 	default:
 		return false, "unknown case kind"
 	}
@@ -350,7 +413,7 @@ func replay(raw json.RawMessage) (bool, string) {
 
 func main() {
 	r := common.Start("C10", "model_checking")
-	for _, k := range []string{"pair", "mod", "triple", "fsopt"} {
+	for _, k := range []string{"pair", "mod", "triple", "fsopt", "fsopt3"} {
 		r.Replayer(k, replay)
 	}
 	r.MaybeReplay()
@@ -359,6 +422,7 @@ func main() {
 	runModifiers(r, st)
 	runTriples(r, st)
 	runFullySpecified(r, st)
+	runFullySpecified3(r, st)
 	r.Set("evaluations", int(st.evals))
 	r.Set("accepted_by_parser", int(st.accepted))
 	r.Set("distinct_nontrivial", int(st.nontrivial))
